@@ -173,6 +173,10 @@ func c16Base(rng *rand.Rand, forceRace bool) (sig, detail string, trace []string
 	refuse := rng.Intn(6) == 0 && !forceRace
 	if refuse {
 		peer.ConnackCode = byte(1 + rng.Intn(5))
+		if rng.Intn(3) == 0 {
+			// reserved return codes: anything but 0 is not an accepting CONNACK
+			peer.ConnackCode = []byte{6, 7, 0x10, 0x7f, 0x80, 0xff}[rng.Intn(6)]
+		}
 	}
 	cli, conn := scen.NewBase(tr, peer)
 	conn.Chunk = []int{0, 1}[rng.Intn(2)]
